@@ -77,11 +77,22 @@ class ParserModel:
         ls = self._local_sets.get(fi.qualname)
         if ls is None:
             ls = {}
-            binds: dict[str, list[frozenset[str] | None]] = {}
+            binds: dict[str, list[tuple[frozenset[str], frozenset[str]] | None]] = {}
             adds: dict[str, list[frozenset[str] | None]] = {}
+
+            def bounds(v: ast.AST) -> tuple[frozenset[str], frozenset[str]] | None:
+                # `A if c else B`: certainly the members common to both, possibly the members of either
+                if isinstance(v, ast.IfExp):
+                    a, b = bounds(v.body), bounds(v.orelse)
+                    return None if a is None or b is None else (a[0] & b[0], a[1] | b[1])
+                if isinstance(v, ast.Call) and isinstance(v.func, ast.Name) and v.func.id in ("set", "frozenset", "tuple", "list") and len(v.args) == 1 and not v.keywords:
+                    return bounds(v.args[0])
+                c = self._const_types(v)
+                return None if c is None else (c, c)
+
             for n in walk_no_nested(fi.node):
                 if isinstance(n, ast.Assign) and len(n.targets) == 1 and isinstance(n.targets[0], ast.Name):
-                    binds.setdefault(n.targets[0].id, []).append(self._const_types(n.value))
+                    binds.setdefault(n.targets[0].id, []).append(bounds(n.value))
                 if isinstance(n, ast.Call) and isinstance(n.func, ast.Attribute) and isinstance(n.func.value, ast.Name) and n.func.attr in ("add", "update") and n.args:
                     adds.setdefault(n.func.value.id, []).append(self._const_types(n.args[0]))
                 if isinstance(n, ast.Call) and isinstance(n.func, ast.Attribute) and isinstance(n.func.value, ast.Name) and n.func.attr in ("discard", "remove", "clear", "pop", "difference_update", "intersection_update"):
@@ -92,10 +103,10 @@ class ParserModel:
                 extra = adds.get(nm, [])
                 if any(e is None for e in extra):
                     continue
-                upper = set(bs[0])
+                upper = set(bs[0][1])
                 for e in extra:
                     upper |= e  # type: ignore[arg-type]
-                ls[nm] = (bs[0], frozenset(upper))
+                ls[nm] = (bs[0][0], frozenset(upper))
             self._local_sets[fi.qualname] = ls
         return ls
 
